@@ -58,7 +58,15 @@ Fixpoint brace_ok (d : nat) (s : str) : bool :=
 Definition no_ws_hd (s : str) : Prop := match s with [] => True | c :: _ => is_whitespace c = false end.
 (* the text is what the parser stores: trimmed *)
 Definition trimmed (s : str) : Prop := no_ws_hd s /\ no_ws_hd (rev s).
-Definition wf_action (a : str) : Prop := brace_ok 0 a = true /\ trimmed a.
+(* NAMED CONDITION [naive_braces_balanced]: the braces of the action text balance when EVERY '{' and
+   '}' character is counted — also those inside Rust string / char literals and comments of the
+   action code, which is how parse_action finds the closing brace.  An action such as
+   [ "{".to_string() ] is legal Rust (balanced once literals are skipped) but not naively balanced:
+   it is outside the round trip, and [action_literal_brace_refuted] (YpRoundFindings.v) shows that
+   the parser then builds a different grammar without reporting anything (known finding
+   C10-action-literal-brace). *)
+Definition naive_braces_balanced (a : str) : Prop := brace_ok 0 a = true.
+Definition wf_action (a : str) : Prop := naive_braces_balanced a /\ trimmed a.
 Definition wf_pad (p : str) : Prop := forallb is_whitespace p = true.
 
 (* ---- texts read up to a single colon / up to the end of the line ------------- *)
@@ -303,25 +311,25 @@ Definition action_span_roundtrip_stmt : Prop :=
    any context: parse_rule followed by the parse_ws of parse_rules' loop adds exactly
    the rule's effect to the AST and leaves the cursor after it *)
 Definition rule_roundtrip_stmt : Prop :=
-  forall k fa D src pre rl r rest i n a g e,
+  forall k fa fp D src pre rl r rest i n a g e,
     src = pre ++ print_rule rl r ++ rest -> i = byte_len pre ->
     wf_rule D rl r -> rule_kind_ok k r -> item_start rest ->
     tok_inv D a ->
     exists n',
-      sbind (parse_rule true fa k src (byte_len src) (fuel_for src) (mkSt n a g e) i)
+      sbind (parse_rule true fa fp k src (byte_len src) (fuel_for src) (mkSt n a g e) i)
             (fun st j => P_ws src st j true)
-      = Done (mkSt n' (rule_eff fa rl i (actiont_of g) r a) g e, Ok (i + byte_len (print_rule rl r))).
+      = Done (mkSt n' (rule_eff fa fp rl i (actiont_of g) r a) g e, Ok (i + byte_len (print_rule rl r))).
 
 (* the rules section  %% rules  up to the end of the text or the "%%" of the programs section *)
 Definition rules_end (rest : str) : Prop := rest = [] \/ exists r, rest = kw_pp ++ r.
 Definition rules_roundtrip_stmt : Prop :=
-  forall k fa D l src pre gap rs rest i n a g e,
+  forall k fa fp D l src pre gap rs rest i n a g e,
     src = pre ++ kw_pp ++ gap ++ print_rules l 0 rs ++ rest -> i = byte_len pre ->
     layout_text gap -> wf_rules D l 0 rs -> Forall (rule_kind_ok k) rs -> rules_end rest ->
     tok_inv D a ->
     exists n',
-      parse_rules true fa k src (byte_len src) (fuel_for src) (mkSt n a g e) i
-      = Done (mkSt n' (rules_eff fa l 0 (i + 2 + byte_len gap) (actiont_of g) rs a) g e,
+      parse_rules true fa fp k src (byte_len src) (fuel_for src) (mkSt n a g e) i
+      = Done (mkSt n' (rules_eff fa fp l 0 (i + 2 + byte_len gap) (actiont_of g) rs a) g e,
               Ok (i + 2 + byte_len gap + byte_len (print_rules l 0 rs))).
 
 (* ---- declarations ----------------------------------------------------------- *)
@@ -389,33 +397,33 @@ Definition decls_tok_inv_stmt : Prop :=
 
 (* validation of the denoted AST finds nothing *)
 Definition validation_clean_stmt : Prop :=
-  forall k fa l ag, wf_agram k ag -> wf_layout l ag ->
-    complete_and_validate (ast_of fa l ag) = Done None.
+  forall k fa fp l ag, wf_agram k ag -> wf_layout l ag ->
+    complete_and_validate (ast_of fa fp l ag) = Done None.
 
 (* ---- the whole file ----------------------------------------------------------- *)
 (* parsing the printed grammar yields its AST, whatever the layout; the errors are
    exactly those of validating that AST *)
 Definition yacc_parse_roundtrip_stmt : Prop :=
-  forall k fa l ag, wf_agram k ag -> wf_layout l ag ->
+  forall k fa fp l ag, wf_agram k ag -> wf_layout l ag ->
     exists v,
-      complete_and_validate (ast_of fa l ag) = Done v /\
-      run_case true fa k (print l ag)
-      = Done (TResult (ast_of fa l ag) (match v with Some e => [e] | None => [] end) (warnings_of fa l ag)).
+      complete_and_validate (ast_of fa fp l ag) = Done v /\
+      run_case true fa fp k (print l ag)
+      = Done (TResult (ast_of fa fp l ag) (match v with Some e => [e] | None => [] end) (warnings_of fa fp l ag)).
 
 Definition yacc_roundtrip_stmt : Prop :=
-  forall k fa l ag, wf_agram k ag -> wf_layout l ag ->
-    run_case true fa k (print l ag) = Done (TResult (ast_of fa l ag) [] (warnings_of fa l ag)).
+  forall k fa fp l ag, wf_agram k ag -> wf_layout l ag ->
+    run_case true fa fp k (print l ag) = Done (TResult (ast_of fa fp l ag) [] (warnings_of fa fp l ag)).
 
 (* the three dialects, by name *)
 Definition yacc_roundtrip_original_stmt : Prop :=
-  forall fa l ag, wf_agram KOriginal ag -> wf_layout l ag ->
-    run_case true fa KOriginal (print l ag) = Done (TResult (ast_of fa l ag) [] (warnings_of fa l ag)).
+  forall fa fp l ag, wf_agram KOriginal ag -> wf_layout l ag ->
+    run_case true fa fp KOriginal (print l ag) = Done (TResult (ast_of fa fp l ag) [] (warnings_of fa fp l ag)).
 Definition yacc_roundtrip_grmtools_stmt : Prop :=
-  forall fa l ag, wf_agram KGrmtools ag -> wf_layout l ag ->
-    run_case true fa KGrmtools (print l ag) = Done (TResult (ast_of fa l ag) [] (warnings_of fa l ag)).
+  forall fa fp l ag, wf_agram KGrmtools ag -> wf_layout l ag ->
+    run_case true fa fp KGrmtools (print l ag) = Done (TResult (ast_of fa fp l ag) [] (warnings_of fa fp l ag)).
 Definition yacc_roundtrip_eco_stmt : Prop :=
-  forall fa l ag, wf_agram KEco ag -> wf_layout l ag ->
-    run_case true fa KEco (print l ag) = Done (TResult (ast_of fa l ag) [] (warnings_of fa l ag)).
+  forall fa fp l ag, wf_agram KEco ag -> wf_layout l ag ->
+    run_case true fa fp KEco (print l ag) = Done (TResult (ast_of fa fp l ag) [] (warnings_of fa fp l ag)).
 
 (* ---- what the denoted AST contains: the abstract grammar, nothing else ----------- *)
 Definition erase_sym (s : symbol) : asym :=
@@ -447,8 +455,8 @@ Definition rule_type (ag : agram) (n : str) : option str :=
   end.
 
 Definition ast_of_faithful_stmt : Prop :=
-  forall k fa l ag, wf_agram k ag ->
-    let A := ast_of fa l ag in
+  forall k fa fp l ag, wf_agram k ag ->
+    let A := ast_of fa fp l ag in
     (* productions: symbols (kind and name), %prec token, action text, in source order *)
     map (fun p => (map erase_sym (p_syms p), p_prec p, option_map fst (p_action p))) (a_prods A)
       = map (fun p => (ap_syms p, ap_prec p, ap_action p)) (flat_map ar_prods (ag_rules ag)) /\
@@ -485,6 +493,6 @@ Definition roundtrip_hyps_satisfiable_stmt : Prop :=
 Definition block_type (ag : agram) (x : arule) : option str :=
   match ar_type x with Some t => Some t | None => ag_actiontype ag end.
 Definition ast_of_block_types_stmt : Prop :=
-  forall k fa l ag, wf_agram k ag ->
+  forall k fa fp l ag, wf_agram k ag ->
     forall x, In x (ag_rules ag) ->
-      exists r, In r (a_rules (ast_of fa l ag)) /\ r_name r = ar_name x /\ r_actiont r = block_type ag x.
+      exists r, In r (a_rules (ast_of fa fp l ag)) /\ r_name r = ar_name x /\ r_actiont r = block_type ag x.
